@@ -146,12 +146,20 @@ func (p *Prog) Disc(name string) *Disc {
 	return nil
 }
 
-// Fields lists the struct's field names in declaration order.
-func (d *Disc) Fields() []*types.Var {
+// DField is a struct field under the name the rules know it by (see canon.go).
+type DField struct {
+	*types.Var
+	Canon string
+}
+
+func (f DField) Name() string { return f.Canon }
+
+// Fields lists the struct's fields in declaration order.
+func (d *Disc) Fields() []DField {
 	st := d.Named.Underlying().(*types.Struct)
-	var out []*types.Var
+	var out []DField
 	for i := 0; i < st.NumFields(); i++ {
-		out = append(out, st.Field(i))
+		out = append(out, DField{st.Field(i), fieldName(d.Named, i)})
 	}
 	return out
 }
